@@ -121,6 +121,7 @@ type Features struct {
 	NoAssign          bool // no reassignment statements (besides while counters)
 	NoLitIdentity     bool // no 0/1/2/true/false literal as a direct operand of a binary operator
 	NoSelfOp          bool // no binary operator with two identical operands
+	SwapTwin          bool // now and then a declaration is followed by its operand-swapped twin
 	FreeVars          bool // free variables fi ff fs fb fa fo (bound by the caller at run time)
 }
 
@@ -533,6 +534,18 @@ func (g *G) expr2(t Ty, depth int) *Expr {
 			if g.F.Floats && (!eq || g.F.EqIntFloat) && g.R.Intn(5) == 0 {
 				r = g.Expr(TFloat, depth-1)
 				l = g.Expr(TInt, depth-1)
+				if eq && g.R.Intn(3) == 0 {
+					// numerically equal literals of the two kinds (k and k.0), directly or through a constant
+					// variable: the one pair on which "promote, then compare" and "compare as typed" differ
+					k := int64(3 + g.R.Intn(6))
+					l, r = &Expr{K: "int", I: k}, &Expr{K: "float", F: float64(k)}
+					if g.R.Intn(2) == 0 {
+						l = &Expr{K: "bin", Op: "/", A: []*Expr{{K: "int", I: 2 * k}, {K: "int", I: 2}}, Paren: 1}
+					}
+					if g.R.Intn(2) == 0 {
+						l, r = r, l
+					}
+				}
 			}
 			return &Expr{K: "bin", Op: op, A: []*Expr{l, r}}
 		case c == 4 && g.F.Strings:
@@ -650,11 +663,27 @@ func (g *G) matchExpr(t Ty, depth int) *Expr {
 	if g.F.Strings && g.R.Intn(3) == 0 {
 		scrT = TStr
 	}
+	// with int/float equality in scope, a whole-valued float scrutinee meets int literals and an int scrutinee meets
+	// float literals: a literal pattern compares like == does
+	mixScr, mixLit := false, false
+	if scrT == TInt && g.F.EqIntFloat && g.F.Floats {
+		switch g.R.Intn(6) {
+		case 0:
+			mixScr = true
+		case 1:
+			mixLit = true
+		}
+	}
 	m := &Expr{K: "match", A: []*Expr{g.Expr(scrT, depth)}}
+	if mixScr {
+		m.A[0] = &Expr{K: "bin", Op: "*", A: []*Expr{g.Expr(TInt, depth), {K: "float", F: []float64{4, 0.5, 8}[g.R.Intn(3)]}}, Paren: 1}
+	}
 	n := 1 + g.R.Intn(3)
 	for i := 0; i < n; i++ {
 		var l *Expr
-		if scrT == TInt {
+		if scrT == TInt && mixLit {
+			l = &Expr{K: "float", F: float64(g.R.Intn(6))}
+		} else if scrT == TInt {
 			l = &Expr{K: "int", I: int64(g.R.Intn(6))}
 		} else {
 			l = g.strLit()
@@ -705,7 +734,19 @@ func (g *G) block(depth, n int, retT Ty) []*Stmt {
 	defer g.pop()
 	var out []*Stmt
 	for i := 0; i < n; i++ {
-		out = append(out, g.stmt(depth, retT))
+		st := g.stmt(depth, retT)
+		out = append(out, st)
+		if g.F.SwapTwin && st.K == "decl" && st.E.K == "bin" && len(st.E.A) == 2 && g.R.Intn(4) == 0 {
+			// the same operator over the same operands the other way round, bound to a second variable: equal for the
+			// commutative cases, different for - / % < and for + on strings and arrays
+			if t, ok := g.scope[len(g.scope)-1][st.Name]; ok {
+				tw := *st.E
+				tw.A = []*Expr{st.E.A[1], st.E.A[0]}
+				n2 := g.fresh("v")
+				g.declare(n2, t)
+				out = append(out, &Stmt{K: "decl", Name: n2, E: &tw})
+			}
+		}
 	}
 	return out
 }
@@ -791,10 +832,21 @@ func (g *G) stmt(depth int, retT Ty) *Stmt {
 			st = TStr
 		}
 		s := &Stmt{K: "switch", E: g.Expr(st, 2)}
+		mixLit := false
+		if st == TInt && g.F.EqIntFloat && g.F.Floats {
+			switch g.R.Intn(6) {
+			case 0:
+				s.E = &Expr{K: "bin", Op: "*", A: []*Expr{g.Expr(TInt, 2), {K: "float", F: []float64{4, 0.5, 8}[g.R.Intn(3)]}}, Paren: 1}
+			case 1:
+				mixLit = true
+			}
+		}
 		n := 1 + g.R.Intn(3)
 		for i := 0; i < n; i++ {
 			var v *Expr
-			if st == TInt {
+			if st == TInt && mixLit {
+				v = &Expr{K: "float", F: float64(g.R.Intn(5))}
+			} else if st == TInt {
 				v = &Expr{K: "int", I: int64(g.R.Intn(5))}
 			} else {
 				v = g.strLit()
